@@ -3,7 +3,9 @@ from __future__ import annotations
 
 import ast
 
-from ..cfg import CFG, ENTRY
+import re
+
+from ..cfg import CFG, ENTRY, always_raises
 from ..core import AnalysisError, FunctionInfo, calls_in, call_name, const_str, dotted, unparse, walk_no_nested
 from ..match import kwarg
 from ..report import Ctx
@@ -278,6 +280,54 @@ def r3_single_writer(ctx: Ctx) -> None:
 
 
 
+def _peek_is_plain_char(text: str) -> bool:
+    try:
+        t = ast.parse(text, mode="eval").body
+    except SyntaxError:
+        return False
+    return (isinstance(t, ast.Compare) and len(t.ops) == 1 and isinstance(t.ops[0], ast.Eq) and unparse(t.left) == "s.peek()"
+            and isinstance(t.comparators[0], ast.Constant) and isinstance(t.comparators[0].value, str) and len(t.comparators[0].value) == 1
+            and t.comparators[0].value not in "\n\0")
+
+
+def r4_string_characters_all_tested(ctx: Ctx) -> None:
+    """`'abc<newline>` is reported where the string starts: in lex_quoted_string every character taken with next() either becomes
+    the loop variable (and meets the newline / end-of-input test at the top of the loop) or was seen by peek() to be a specific
+    non-newline character.  A character consumed blind (e.g. `any character after a backslash`) can be the newline that ends an
+    unterminated string, which is then reported lines later, at another quote, or as a different error."""
+    fn = ctx.repo.func(SST, "lex_quoted_string")
+    loops = [n for n in walk_no_nested(fn.node) if isinstance(n, ast.While)]
+    if len(loops) != 1:
+        raise AnalysisError("lex_quoted_string: expected one loop")
+    lp = loops[0]
+    g = CFG(fn.node)
+    # the loop variable and its newline test
+    tested = None
+    for st in lp.body:
+        if isinstance(st, ast.If) and always_raises(st.body):
+            t = unparse(st.test)
+            m = re.match(r"^(\w+) == '\\n' or \1 is None$|^(\w+) is None or \2 == '\\n'$|^(\w+) in \('\\n', None\)$|^(\w+) in \(None, '\\n'\)$", t)
+            if m:
+                tested = next(x for x in m.groups() if x)
+    if tested is None:
+        ctx.fail("lex_quoted_string:newline-test", "no raising test of the current character against newline / end of input at the top of the loop")
+        return
+    n = 0
+    for st in walk_no_nested(lp):
+        calls = [c for c in ([st.value] if isinstance(st, ast.Expr) else []) if isinstance(c, ast.Call) and call_name(c) == "s.next"]
+        for c in calls:
+            n += 1
+            conds = g.path_conditions(g.node_of(st), fn.node, keep=[tested])
+            peeked = [t for t, pol in conds if pol and _peek_is_plain_char(t)]
+            ctx.check(bool(peeked), f"lex_quoted_string:{unparse(st)} under {sorted(t for t, p in conds if p)}",
+                      "a character is consumed without having been tested or peeked: if it is the newline of an unterminated string the error moves to a later line")
+        if isinstance(st, ast.Assign) and isinstance(st.value, ast.Call) and call_name(st.value) == "s.next":
+            n += 1
+            ctx.check(unparse(st.targets[0]) == tested, f"lex_quoted_string:{unparse(st)}", f"the consumed character becomes `{tested}`, which the loop tests first")
+    ctx.count("string_consumptions", n)
+    ctx.floor("string_consumptions", 2)
+
+
 def rb_binding_agreement(ctx: Ctx) -> None:
     from ..ownership import binding_agreement
 
@@ -291,4 +341,4 @@ def rm_no_process_lifetime_results(ctx: Ctx) -> None:
     state_rule(ctx)
 
 
-RULES = [r1_errors_carry_location, r2_position_before_newline, r3_single_writer, rb_binding_agreement, rm_no_process_lifetime_results]
+RULES = [r1_errors_carry_location, r2_position_before_newline, r3_single_writer, r4_string_characters_all_tested, rb_binding_agreement, rm_no_process_lifetime_results]
